@@ -12,7 +12,8 @@ THEOREMS = ["C19_torn_counter", "C19_truncated_counter", "splitRecs_prefix", "C1
             "decInts_getD", "parseHdr_fields", "mix_slice", "encForm_slices", "C19_header_rewrite",
             "C19_rewrite_session", "C19_short_file", "image_seq", "C19_writer_crash", "C19_intact_header",
             "image_over", "C19_appender_crash", "C19_truncated", "C19_rewrite_session_cut", "C19_writer_crash_torn",
-            "C19_appender_crash_torn"]
+            "C19_appender_crash_torn", "C19_count_after_write", "C19_retry", "readFile_form_tail",
+            "C19_retry_read"]
 hx = c08.hx
 
 
@@ -387,4 +388,4 @@ def finish(ck, lines, meta):
               "correspondence", bad is None, bad or "")
     ck.failures.sort(key=lambda f: (f["input"].get("n", 0), f["input"].get("cut", f["input"].get("truncate", 0))))
     if ck.tier == "thorough":
-        ck.leanchecker(["LasModel.Props.C19"])
+        ck.leanchecker(["LasModel.Props.C19", "LasModel.Props.C19Retry"])
